@@ -58,7 +58,7 @@ type Engine struct {
 func (en *Engine) unitsFor(prop string) []string {
 	var out []string
 	for k, fc := range en.CS.Funcs {
-		if fc.Trusted {
+		if fc.Trusted || fc.Unverified != "" {
 			continue
 		}
 		if prop == "" || hasProp(fc.Props, prop) || (prop == "C20" && !fc.NoSafety()) {
